@@ -46,6 +46,41 @@ func (t TEP) ValidateTokenExchangeRequest(ctx context.Context, request op.TokenE
 	return nil
 }
 
+// FromRequest adds the OPTIONAL storage interface op.CanGetPrivateClaimsFromRequest (the store itself
+// already implements op.CanSetUserinfoFromRequest): private claims computed from the whole token
+// request, same content as GetPrivateClaimsFromScopes. A storage may implement it alongside
+// TokenExchangeStorage; token-exchange requests must still get their claims (act) from
+// GetPrivateClaimsFromTokenExchangeRequest.
+type FromRequest struct{ S *Store }
+
+func (f FromRequest) GetPrivateClaimsFromRequest(ctx context.Context, req op.TokenRequest, restrictedScopes []string) (map[string]any, error) {
+	if err := f.S.enter(ctx, "GetPrivateClaimsFromRequest"); err != nil {
+		return nil, err
+	}
+	clientID, _, _, _ := requestClient(req)
+	var claims map[string]any
+	for _, sc := range restrictedScopes {
+		if len(sc) > 7 && sc[:7] == "custom:" {
+			if claims == nil {
+				claims = map[string]any{}
+			}
+			claims[sc[7:]] = "v-" + clientID
+		}
+	}
+	return claims, nil
+}
+
+// AsStorageTEPolicyFromRequest: as AsStorageTEPolicy, additionally implementing CanGetPrivateClaimsFromRequest.
+func (s *Store) AsStorageTEPolicyFromRequest(p TEPolicy) op.Storage {
+	return struct {
+		*Store
+		CC
+		TEP
+		Dev
+		FromRequest
+	}{s, CC{s}, TEP{TE{s}, p}, Dev{s}, FromRequest{s}}
+}
+
 // AsStorageTEPolicy: the store with all optional capabilities, token exchange under policy p.
 func (s *Store) AsStorageTEPolicy(p TEPolicy) op.Storage {
 	return struct {
